@@ -383,7 +383,7 @@ func checkTickerTable(c *Ctx) {
 	ts := &tableSpec{
 		Rule:   rule,
 		Region: "one iteration of _ticker.run",
-		Atoms:  []atomSpec{{"arm", []string{"reset", "stop", "timerFired", "tickTaken"}}, {"stopped", boolDom}},
+		Atoms:  []atomSpec{{"arm", []string{"reset", "stop", "timerFired", "tickTaken"}}, {"stopped", boolDom}, {"pending", boolDom}},
 		Extra: func(pa *Path) map[string][]string {
 			a, _ := armOf(pa)
 			return map[string][]string{"arm": {a}}
@@ -391,6 +391,10 @@ func checkTickerTable(c *Ctx) {
 		Lit: func(pa *Path, l Lit) litClass {
 			if l.T.K == "call" && strings.HasSuffix(l.T.S, "time.Timer.Stop") && isTimer(l.T.A[0]) {
 				return litClass{Atom: "stopped", IfTrue: []string{"T"}, OK: true}
+			}
+			// pending ⇔ nextch != nil at the top of the iteration: a tick waits to be picked up
+			if x, ok := isNilTest(l.T); ok && isPhi(x, "nextch") {
+				return litClass{Atom: "pending", IfTrue: []string{"F"}, OK: true}
 			}
 			return litClass{}
 		},
@@ -400,6 +404,7 @@ func checkTickerTable(c *Ctx) {
 				return nil, "unknown select arm " + arm
 			}
 			var out []string
+			rearmed := false // a Stop or drain after the re-arming Reset would disarm the new period
 			for _, e := range pa.Effects {
 				switch e.Kind {
 				case "select":
@@ -409,6 +414,10 @@ func checkTickerTable(c *Ctx) {
 						}
 					}
 					if !e.Blocking && len(e.Sel) == 1 && e.Sel[0].Send == nil && isTimerC(e.Sel[0].Chan) {
+						if rearmed {
+							out = append(out, "drain(timer.C)-AFTER-Reset")
+							continue
+						}
 						out = append(out, "drain(timer.C)[nonblocking]")
 						continue
 					}
@@ -428,8 +437,13 @@ func checkTickerTable(c *Ctx) {
 					switch {
 					case name == "_ticker.nextPeriod":
 					case strings.HasSuffix(name, "time.Timer.Stop") && isTimer(e.Args[0]):
-						out = append(out, "timer.Stop")
+						if rearmed {
+							out = append(out, "timer.Stop-AFTER-Reset")
+						} else {
+							out = append(out, "timer.Stop")
+						}
 					case strings.HasSuffix(name, "time.Timer.Reset") && isTimer(e.Args[0]):
+						rearmed = true
 						if isPeriodCall(e.Args[1]) {
 							out = append(out, "timer.Reset(nextPeriod)")
 						} else {
@@ -470,10 +484,21 @@ func checkTickerTable(c *Ctx) {
 		Expected: func(v map[string]string) [][]string {
 			switch v["arm"] {
 			case "reset":
+				full := []string{"timer.Stop", "drain(timer.C)[nonblocking]", "timer.Reset(nextPeriod)", "nextch':=nil"}
 				if v["stopped"] == "T" {
-					return [][]string{{"timer.Stop", "timer.Reset(nextPeriod)", "nextch':=nil"}}
+					full = []string{"timer.Stop", "timer.Reset(nextPeriod)", "nextch':=nil"}
 				}
-				return [][]string{{"timer.Stop", "drain(timer.C)[nonblocking]", "timer.Reset(nextPeriod)", "nextch':=nil"}}
+				alts := [][]string{full}
+				if v["pending"] == "T" {
+					// nextch is set only by the timerFired row, which has received the tick, and every
+					// row that re-arms the timer clears it (this table): with a tick pending the timer
+					// has fired and timer.C is empty, so Stop and the drain are no-ops and may be left out
+					alts = append(alts, []string{"timer.Reset(nextPeriod)", "nextch':=nil"})
+				} else {
+					// nextch is nil already: leaving it alone is the same as clearing it
+					alts = append(alts, full[:len(full)-1])
+				}
+				return alts
 			case "stop":
 				return [][]string{{"timer.Stop", "exit"}, {"exit"}}
 			case "timerFired":
